@@ -35,9 +35,12 @@ SCENARIOS = {
     "S6_duplicate_submission": dict(conns=("c1", "c2"), script=[("c1", ["REQ", "x", {"kinds": [1]}]), ("c2", ["EVENT", E1]), ("c2", ["EVENT", E1])]),
     "S7_ephemeral": dict(conns=("c1", "c2"), script=[("c1", ["REQ", "x", {"kinds": [20001]}]), ("c2", ["EVENT", EPH])]),
     "S9_same_event_from_two_connections": dict(conns=("c1", "c2", "c3"), script=[("c1", ["REQ", "x", {"kinds": [1]}]), ("c2", ["EVENT", E1]), ("c3", ["EVENT", E1])]),
+    "S10_registry_changes_during_fanout": dict(conns=("c1", "c2", "c3", "c4"), script=[("c1", ["REQ", "x", {"kinds": [1]}]), ("c4", ["REQ", "v", {"kinds": [1]}]),
+                                                                                   ("c2", ["EVENT", E1]), ("c3", ["REQ", "z", {"kinds": [1]}]), ("c2", ["EVENT", E3])],
+                                               allow_drop=("c4",)),
     "S8_stalled_subscriber": dict(conns=("c1", "c2"), script=[("c1", ["REQ", "x", {"kinds": [1]}]), ("c2", ["EVENT", E1]), ("c2", ["EVENT", E3])], stall=("c1",)),
 }
-ADDR = {"c1": "1.1.1.1", "c2": "2.2.2.2", "c3": "3.3.3.3"}
+ADDR = {"c1": "1.1.1.1", "c2": "2.2.2.2", "c3": "3.3.3.3", "c4": "4.4.4.4"}
 
 
 def _setup_store(w):
